@@ -92,8 +92,29 @@ def check_chain(ck):
         ck.ob("C36.chain", cp, cp.node, k == (0 if was_done else 1), "copy leaves a finished target alone and otherwise settles/cancels it exactly once on every normal path (target-done=%s settles=%d)" % (was_done, k),
               construct="exit target-done=%s settles=%d" % (was_done, k))
     # outcome mapping: exception -> set_exception(that exception), otherwise set_result(source.result())
+    def _defs_of(name):
+        out = [d.value for d in q.stores_to(cp.node, name) if isinstance(d, (ast.Assign, ast.AnnAssign)) and d.value is not None]
+        out += [n.value for n in ast.walk(cp.node) if isinstance(n, ast.NamedExpr) and isinstance(n.target, ast.Name) and n.target.id == name]
+        return out
+
+    def _from_source(v, meth):
+        if method_call_on(v, s, meth):
+            return True
+        if isinstance(v, ast.NamedExpr):
+            return method_call_on(v.value, s, meth)
+        if isinstance(v, ast.Name):
+            ds = _defs_of(v.id)
+            if not ds:
+                raise AnalysisError("%s: cannot find the definition of %s" % (cp.site(v), v.id))
+            return all(method_call_on(d, s, meth) for d in ds)
+        raise AnalysisError("%s: copied value in an unrecognised shape: %s" % (cp.site(v), q.unparse(v)[:60]))
+
     for st in ss:
         c = st[1]
+        if isinstance(c.func, ast.Attribute) and c.func.attr in ("set_result", "set_exception") and c.args:
+            meth = "result" if c.func.attr == "set_result" else "exception"
+            ck.ob("C36.chain", cp, c, _from_source(c.args[0], meth), "the copied %s is the source's %s()" % (meth, meth))
+            continue
         if isinstance(c.func, ast.Attribute) and c.func.attr == "set_result":
             v = c.args[0] if c.args else None
             ok = method_call_on(v, s, "result") or (isinstance(v, ast.Name) and any(isinstance(d, ast.Assign) and method_call_on(d.value, s, "result") for d in q.stores_to(cp.node, v.id)))
@@ -158,7 +179,15 @@ def check_multi(ck, P="C36"):
     out = next(iter(outs))
     fresh = any(isinstance(getattr(st, "value", None), ast.Call) and q.call_attr(st.value) in ("Future", "_create_future") for st in q.stores_to(mf.node, out))
     ck.ob(P + ".multi", mf, mf.node, fresh, "multi_future returns a fresh future", construct="output fresh")
-    lists = [st for st in own_walk(mf.node) if isinstance(st, ast.Assign) and q.is_call(st.value, "list") and st.value.args and q.is_call(st.value.args[0], "map") and q.dotted(st.value.args[0].args[0]) == "convert_yielded"]
+    def _is_conversion(v):
+        if q.is_call(v, "list") and v.args and q.is_call(v.args[0], "map") and v.args[0].args and q.dotted(v.args[0].args[0]) == "convert_yielded":
+            return True
+        if isinstance(v, ast.ListComp) and len(v.generators) == 1 and not v.generators[0].ifs and isinstance(v.generators[0].target, ast.Name) \
+                and q.is_call(v.elt, "convert_yielded") and len(v.elt.args) == 1 and q.dotted(v.elt.args[0]) == v.generators[0].target.id:
+            return True
+        return False
+
+    lists = [st for st in own_walk(mf.node) if isinstance(st, ast.Assign) and _is_conversion(st.value)]
     if len(lists) != 1:
         raise AnalysisError("%s: child conversion `list(map(convert_yielded, ...))` not recognised" % mf.site())
     kids = sorted(q.assigned_paths(lists[0]))[0]
@@ -515,6 +544,7 @@ def check_error_callback(ck, wt):
 
 
 def run(ck):
+    ck._orig_repo = getattr(ck, "_orig_repo", None) or ck.repo
     ck.repo = normalized(ck.repo, NORM_MODULES)  # alias / named-boolean / temporary / setter-helper normalisation (vt/x_syncnorm.py)
     ck.rule("C36.cancel-aware", "a .result()/.exception() on a future the callback did not create is under a handler for CancelledError/BaseException, under `not F.cancelled()`, or after an earlier read that returned (else a cancelled input raises out of the callback and the output is never settled)")
     ck.rule("C36.settle", "every settle of an output future is under `not F.done()` or on a future created in the same function")
